@@ -191,6 +191,35 @@ pub struct Inner { p: i32, q: String }
 """
 
 
+FIXED_PRELUDE = """
+pub trait Wire<Raw> { type Ts; }
+pub struct Proto;
+impl Wire<u8> for Proto { type Ts = bool; }
+impl Wire<u64> for Proto { type Ts = String; }
+impl Wire<Vec<u8>> for Proto { type Ts = Vec<String>; }
+pub mod deep { pub mod er { pub struct Holder<A, B>(pub A, pub B); impl<A, B> Holder<A, B> { } pub trait Pick { type Out; } impl<A, B> Pick for Holder<A, B> { type Out = (A, B); } } }
+#[derive(TS)] pub struct Leaf { pub n: i32 }
+"""
+
+# (expectation, definition): `_` of a field-level `as` stands for the field's type wherever a type can be written
+FIXED_DEFINITIONS = [
+    ("compiles", 'pub struct FdLast { #[ts(as = "Option<_>")] a: u8, #[ts(as = "Vec<Option<_>>")] b: String, #[ts(as = "std::collections::HashMap<String, _>")] c: Leaf }'),
+    ("compiles", 'pub struct FdTuple { #[ts(as = "(_, Option<_>)")] a: u8, #[ts(as = "[_; 2]")] b: bool, #[ts(as = "Box<(_, _)>")] c: Leaf }'),
+    ("compiles", 'pub struct FdTrait { #[ts(as = "<Proto as Wire<_>>::Ts")] a: u8, #[ts(as = "<Proto as Wire<_>>::Ts")] b: u64, #[ts(as = "<Proto as Wire<_>>::Ts", inline)] c: Vec<u8> }'),
+    ("compiles", 'pub struct FdSelfAndTrait { #[ts(as = "<_ as std::ops::Mul<_>>::Output")] area: f64, #[ts(optional, as = "Option<<Proto as Wire<_>>::Ts>")] sum: u64 }'),
+    ("compiles", 'pub struct FdTupleStruct(#[ts(as = "<Proto as Wire<_>>::Ts")] u8, #[ts(as = "<Proto as self::Wire<_>>::Ts")] u64);'),
+    ("compiles", 'pub struct FdNewtype(#[ts(as = "<Proto as Wire<_>>::Ts")] Vec<u8>);'),
+    ("compiles", 'pub enum FdEnum { Ping(#[ts(as = "<Proto as Wire<_>>::Ts")] u8), Data { #[ts(as = "<Proto as Wire<_>>::Ts")] bytes: Vec<u8> }, Two(#[ts(as = "Option<_>")] u8, #[ts(as = "<Proto as Wire<_>>::Ts")] u64) }'),
+    ("compiles", 'pub struct FdMiddle { #[ts(as = "<deep::er::Holder<_, u8> as deep::er::Pick>::Out")] a: String, #[ts(as = "<deep::er::Holder<Option<_>, _> as deep::er::Pick>::Out")] b: bool }'),
+    ("compiles", 'pub struct FdGeneric<T> { #[ts(as = "Option<_>")] a: T, #[ts(as = "<deep::er::Holder<_, _> as deep::er::Pick>::Out")] b: Vec<T> }'),
+    ("compiles", '#[ts(tag = "t")] pub enum FdTagged { A { #[ts(as = "<Proto as Wire<_>>::Ts")] x: u8 }, B }'),
+    # a variant has no type of its own that `_` could stand for
+    ("either", 'pub enum FdVariantInfer { #[ts(as = "Vec<_>")] A(i32), B }'),
+    ("either", 'pub enum FdVariantInferStruct { #[ts(as = "Option<_>")] A { x: i32 }, B }'),
+    ("either", '#[ts(tag = "t")] pub enum FdVariantInferTagged { #[ts(as = "<Proto as Wire<_>>::Ts")] A(u8), B }'),
+]
+
+
 def write_lib_crate(name, body):
     d = os.path.join(C.GEN_DIR, name)
     os.makedirs(os.path.join(d, "src"), exist_ok=True)
@@ -314,5 +343,38 @@ def compile_batches(chk, r, items, outcomes, tier):
         if i not in hit:
             chk.violation("C16|conflict-not-surfaced", f"`{items[i][2][:300]}` compiled although the derive reports {items[i][1][0]}",
                           {"source": items[i][2], "rules": items[i][1]}, tags=["conflict-not-surfaced"])
-    chk.coverage_extra["compile_batches"].update({"B_optional_cases": len(b_entries), "C_conflict_cases": len(rej)})
+    # batch D: hand-written definitions around `_` in `as` (the generator's values for `as` are few). `compiles`: the derive accepts
+    # them and the expansion has to compile; `either`: compiles, or is rejected by the derive with a diagnostic of its own (an
+    # error without a rustc error code) - an error *with* a code is rustc rejecting the expansion
+    d_entries = [(f"D{j}", want, src) for j, (want, src) in enumerate(FIXED_DEFINITIONS)]
+    lines = (HEADER + FIXED_PRELUDE).splitlines()
+    owner = {}
+    for i, _want, src in d_entries:
+        start = len(lines) + 1
+        lines.append("#[derive(TS)]")
+        lines.extend(src.splitlines())
+        for ln in range(start, len(lines) + 1):
+            owner[ln] = i
+        lines.append("")
+    write_lib_crate("c16_d", "\n".join(lines) + "\n")
+    rc, errs, out = check_crate("c16_d")
+    by_item = {}
+    for e in errs:
+        iid = owner.get(e["line"] or -1)
+        if iid is None:
+            chk.note_inconclusive(f"batch D error not attributable to a definition: {e['rendered'][:300]}")
+            continue
+        by_item.setdefault(iid, []).append(e)
+    if rc != 0 and not errs:
+        chk.note_inconclusive("compile batch D failed without diagnostics: " + out[-600:])
+    for i, want, src in d_entries:
+        chk.add_eval()
+        es = by_item.get(i, [])
+        coded = [e for e in es if e.get("code")]
+        if (want == "compiles" and es) or (want == "either" and coded):
+            e = (coded or es)[0]
+            key = f"C16|expansion-does-not-compile|fixed|{re.sub(r'`[^`]*`', '`_`', e['message'])[:80]}"
+            chk.violation(key, f"accepted definition expands to code rustc rejects: `{src[:300]}`: {e['message'][:300]}",
+                          {"source": src, "error": e["rendered"]}, tags=["expansion-does-not-compile", "fixed-definition"])
+    chk.coverage_extra["compile_batches"].update({"B_optional_cases": len(b_entries), "C_conflict_cases": len(rej), "D_fixed_definitions": len(d_entries)})
     C.remove_crates("c16_")
